@@ -11,6 +11,9 @@ from harness import c11_lib as cl
 from harness import c10_model as cm
 
 TOL = 1e-10
+# is_equal / is_hermitian are relative decisions (dist < eps * norm): they say nothing about an operator that is zero up
+# to rounding (e.g. Sy Sx Sy = 0 for spin 1, stored as 1e-17); all generated coefficients and site matrices are O(1)
+NONZERO = 1e-6
 
 
 def real_side(case):
@@ -152,7 +155,7 @@ def check_case(case, lean_out, real=None, use_model=True):
             dsite = float(np.prod(dims)) ** (1.0 / len(dims))
             dh = cl.mpo_dense(A, n) if dsite ** n <= 1300 else None
             hd = oc.herm_defect(dh) if dh is not None else None
-        if dh is not None and np.max(np.abs(dh)) > 0:
+        if dh is not None and np.max(np.abs(dh)) > NONZERO:
             exp_h = hd <= tol
             if ih != exp_h and (exp_h or hd > 1e-3):
                 prop('is_hermitian.wrong', f'is_hermitian() = {ih}, hermiticity defect of the dense operator {hd:.2e}')
@@ -162,7 +165,7 @@ def check_case(case, lean_out, real=None, use_model=True):
         eq_exact = diff <= tol
         facts['pair_equal' if eq_exact else 'pair_unequal'] = True
         ie = attempt('is_equal', lambda: bool(A.is_equal(B)))
-        if ie is not None and finite and (np.max(np.abs(dA)) > 0 or np.max(np.abs(dB)) > 0):
+        if ie is not None and finite and (np.max(np.abs(dA)) > NONZERO or np.max(np.abs(dB)) > NONZERO):
             if ie != eq_exact and (eq_exact or diff > 1e-3):
                 sig = 'is_equal.false-positive' if ie else 'is_equal.false-negative'
                 prop(sig, f'is_equal = {ie}, dense operators differ by {diff:.2e}')
@@ -181,7 +184,7 @@ def check_case(case, lean_out, real=None, use_model=True):
                     return oc.maxdiff(a, b), max(float(np.max(np.abs(a))), float(np.max(np.abs(b))))
                 d_need, m_need = wdiff(n_need)
                 facts['is_equal_infinite'] = True
-                if m_need > 0:
+                if m_need > NONZERO:
                     exp_eq = d_need <= tol
                     if ie != exp_eq and (exp_eq or d_need > 1e-3):
                         d_used, _ = wdiff(n_used)
